@@ -3,6 +3,7 @@
 #include "common.hpp"
 #include "nmtools/array/index/pooling.hpp"
 #include "nmtools/array/view/pooling.hpp"
+#include "nmtools/array/functional/pooling.hpp"
 namespace view = nm::view;
 typedef unsigned char u8;
 using arr_t = hyb_t<u8,32,4>;
@@ -28,4 +29,21 @@ KERNEL int K(k_avg_pool2d)(const size_t* shape, const u8* d, const size_t* ks, c
   put(nm::shape(v), oshape);
   *out = (float)v(idx[0],idx[1],idx[2],idx[3]);
   return 1;
+}
+
+// the same views observed THROUGH the extracted function: fn::apply(get_function_composition(view), get_function_operands(view)) - what the device kernels evaluate (C13/C14)
+namespace fn = nm::functional;
+KERNEL int K(k_max_pool2d_fn)(const size_t* shape, const u8* d, const size_t* ks, const size_t* st, int ceil_mode, const size_t* idx, size_t* oshape, u8* out){
+  arr_t a; if (!mk4(a,shape,d)) return -1;
+  auto v = view::max_pool2d(a, mk_arr<size_t,2>(ks), mk_arr<size_t,2>(st), (bool)ceil_mode);
+  auto f = fn::get_function_composition(v); const auto& ops = fn::get_function_operands(v); auto mr = fn::apply(f, ops);
+  if (!nm::has_value(mr)) return 0; const auto& r = nm::unwrap(mr);
+  put(nm::shape(r), oshape); *out = (u8)r(idx[0],idx[1],idx[2],idx[3]); return 1;
+}
+KERNEL int K(k_avg_pool2d_fn)(const size_t* shape, const u8* d, const size_t* ks, const size_t* st, int ceil_mode, const size_t* idx, size_t* oshape, float* out){
+  arr_t a; if (!mk4(a,shape,d)) return -1;
+  auto v = view::avg_pool2d(a, mk_arr<size_t,2>(ks), mk_arr<size_t,2>(st), (bool)ceil_mode);
+  auto f = fn::get_function_composition(v); const auto& ops = fn::get_function_operands(v); auto mr = fn::apply(f, ops);
+  if (!nm::has_value(mr)) return 0; const auto& r = nm::unwrap(mr);
+  put(nm::shape(r), oshape); *out = (float)r(idx[0],idx[1],idx[2],idx[3]); return 1;
 }
